@@ -283,7 +283,9 @@ class Interp:
                 return {'True': True, 'False': False, 'None': None}[e.id]
             if e.id in ('str', 'int', 'float', 'list', 'dict', 'tuple', 'set', 'bool'):
                 return e.id
-            return ClassRef(e.id)
+            if e.id[:1].isupper() or e.id in ('ast', 'sa', 're', 'copy', 'utils', 'steps', 'dt', 'datetime') or e.id in {k.split('.')[0] for k in self.stubs}:
+                return ClassRef(e.id)       # a class / module of the repository: only used as callee or in isinstance
+            raise AnalysisError(f'interpreter: free variable `{e.id}` (line {getattr(e, "lineno", "?")}) has no stand-in')
         if isinstance(e, ast.Attribute):
             d = norm(e)
             if d in self.stubs and not callable(self.stubs[d]):
